@@ -24,114 +24,119 @@ class StatementMapper(ast.NodeVisitor):
         self.augmented_positions_by_spec = augmented_positions_by_spec
         self.traversal: List[ast.AST] = []
 
-    @staticmethod
-    def _get_prefix_col_offset_for(node: ast.AST) -> Optional[int]:
-        if isinstance(node, ast.Name):
-            return node.col_offset
-        elif isinstance(node, ast.Attribute):
-            return getattr(node.value, "end_col_offset", -2) + 1
-        elif isinstance(node, ast.FunctionDef):
-            # TODO: can be different if more spaces between 'def' and function name
-            return node.col_offset + 4
-        elif isinstance(node, ast.ClassDef):
-            # TODO: can be different if more spaces between 'class' and class name
-            return node.col_offset + 6
-        elif isinstance(node, ast.AsyncFunctionDef):
-            # TODO: can be different if more spaces between 'async', 'def', and function name
-            return node.col_offset + 10
-        elif isinstance(node, (ast.Import, ast.ImportFrom)) and len(node.names) == 1:
-            # "import " vs "from <base_module> import "
-            base_offset = (
-                7 if isinstance(node, ast.Import) else 13 + len(node.module or "")
-            )
-            name = node.names[0]
-            return (
-                node.col_offset
-                + base_offset
-                + (0 if name.asname is None else len(name.name) + 1)
-            )
-        else:
-            return None
+    # Where in the (rewritten) text the token of each augmentation type sits, relative to the node written with it.
+    # Positions are (line, UTF-8 byte column), like the ones the ast records.  Attributes are measured from their own
+    # end (the end of the object would miss a closing parenthesis: `(a).b`), imports from their alias.
 
     @staticmethod
-    def _get_suffix_col_offset_for(node: ast.AST) -> Optional[int]:
+    def _blen(text: str) -> int:
+        return len(text.encode("utf-8"))
+
+    @classmethod
+    def _end_of(cls, node: ast.AST) -> Optional[Tuple[int, int]]:
+        lineno, col = getattr(node, "end_lineno", None), getattr(
+            node, "end_col_offset", None
+        )
+        return None if lineno is None or col is None else (lineno, col)
+
+    @classmethod
+    def _alias_positions(
+        cls, node: ast.AST, suffix: bool
+    ) -> List[Tuple[int, int]]:
+        if not isinstance(node, (ast.Import, ast.ImportFrom)) or len(node.names) != 1:
+            return []
+        alias = node.names[0]
+        end = cls._end_of(alias)
+        if end is None or not hasattr(alias, "col_offset"):
+            return []
+        name_start = (alias.lineno, alias.col_offset)  # type: ignore[attr-defined]
+        name_end = (name_start[0], name_start[1] + cls._blen(alias.name))
+        if suffix:
+            return [name_end] + ([end] if alias.asname is not None else [])
+        asname_start = (
+            [(end[0], end[1] - cls._blen(alias.asname))]
+            if alias.asname is not None
+            else []
+        )
+        return [name_start] + asname_start
+
+    @classmethod
+    def _get_prefix_positions_for(cls, node: ast.AST) -> List[Tuple[int, int]]:
         if isinstance(node, ast.Name):
-            return node.col_offset + len(node.id)
+            return [(node.lineno, node.col_offset)]
         elif isinstance(node, ast.Attribute):
-            return getattr(node.value, "end_col_offset", -1) + len(node.attr) + 1
+            end = cls._end_of(node)
+            return [] if end is None else [(end[0], end[1] - cls._blen(node.attr))]
         elif isinstance(node, ast.FunctionDef):
             # TODO: can be different if more spaces between 'def' and function name
-            return node.col_offset + 4 + len(node.name)
+            return [(node.lineno, node.col_offset + 4)]
         elif isinstance(node, ast.ClassDef):
             # TODO: can be different if more spaces between 'class' and class name
-            return node.col_offset + 6 + len(node.name)
+            return [(node.lineno, node.col_offset + 6)]
         elif isinstance(node, ast.AsyncFunctionDef):
             # TODO: can be different if more spaces between 'async', 'def', and function name
-            return node.col_offset + 10 + len(node.name)
-        elif isinstance(node, (ast.Import, ast.ImportFrom)) and len(node.names) == 1:
-            name = node.names[0]
-            # "import " vs "from <base_module> import "
-            base_offset = (
-                7 if isinstance(node, ast.Import) else 13 + len(node.module or "")
-            )
-            col_offset = node.col_offset + base_offset
-            if name.asname is None:
-                col_offset += len(name.name)
-            else:
-                col_offset += len(name.name) + 1 + len(name.asname)
-            return col_offset
+            return [(node.lineno, node.col_offset + 10)]
         else:
-            return None
+            return cls._alias_positions(node, suffix=False)
 
-    @staticmethod
-    def _get_dot_col_offset_for(node: ast.AST) -> Optional[int]:
+    @classmethod
+    def _get_suffix_positions_for(cls, node: ast.AST) -> List[Tuple[int, int]]:
+        if isinstance(node, ast.Name):
+            return [(node.lineno, node.col_offset + cls._blen(node.id))]
+        elif isinstance(node, ast.Attribute):
+            end = cls._end_of(node)
+            return [] if end is None else [end]
+        elif isinstance(node, ast.FunctionDef):
+            # TODO: can be different if more spaces between 'def' and function name
+            return [(node.lineno, node.col_offset + 4 + cls._blen(node.name))]
+        elif isinstance(node, ast.ClassDef):
+            # TODO: can be different if more spaces between 'class' and class name
+            return [(node.lineno, node.col_offset + 6 + cls._blen(node.name))]
+        elif isinstance(node, ast.AsyncFunctionDef):
+            # TODO: can be different if more spaces between 'async', 'def', and function name
+            return [(node.lineno, node.col_offset + 10 + cls._blen(node.name))]
+        else:
+            return cls._alias_positions(node, suffix=True)
+
+    @classmethod
+    def _get_dot_positions_for(cls, node: ast.AST) -> List[Tuple[int, int]]:
         if isinstance(node, ast.Attribute):
-            return getattr(node.value, "end_col_offset", -1)
+            end = cls._end_of(node)
+            return [] if end is None else [(end[0], end[1] - cls._blen(node.attr) - 1)]
         else:
-            return None
+            return []
 
-    @staticmethod
-    def _get_binop_col_offset_for(node: ast.AST) -> Optional[int]:
-        if isinstance(node, ast.BinOp):
-            return getattr(node.left, "end_col_offset", -2) + 1
-        else:
-            return None
-
-    def _get_col_offset_for(
-        self, aug_type: AugmentationType, node: ast.AST
-    ) -> Optional[int]:
-        if aug_type == AugmentationType.prefix:
-            return self._get_prefix_col_offset_for(node)
+    def _is_augmented(
+        self,
+        aug_type: AugmentationType,
+        node: ast.AST,
+        positions: Set[Tuple[int, int]],
+    ) -> bool:
+        if aug_type == AugmentationType.binop:
+            if not isinstance(node, ast.BinOp):
+                return False
+            # the operator sits between the operands (closing / opening parentheses of parenthesized operands
+            # may stand in between): these gaps are disjoint for different BinOps
+            left_end = self._end_of(node.left)
+            right_start = (node.right.lineno, node.right.col_offset)
+            return left_end is not None and any(
+                left_end <= pos < right_start for pos in positions
+            )
+        elif aug_type == AugmentationType.prefix:
+            candidates = self._get_prefix_positions_for(node)
         elif aug_type == AugmentationType.suffix:
-            return self._get_suffix_col_offset_for(node)
+            candidates = self._get_suffix_positions_for(node)
         elif aug_type == AugmentationType.dot:
-            return self._get_dot_col_offset_for(node)
-        elif aug_type == AugmentationType.binop:
-            return self._get_binop_col_offset_for(node)
+            candidates = self._get_dot_positions_for(node)
         else:
             raise NotImplementedError()
-
-    @staticmethod
-    def _get_lineno_for(aug_type: AugmentationType, node: ast.AST) -> int:
-        # the column is measured from the end of a child (the object before the dot, the left operand):
-        # the token sits on the line where that child ends, which need not be the line the node starts on
-        child: Optional[ast.AST] = None
-        if aug_type == AugmentationType.binop and isinstance(node, ast.BinOp):
-            child = node.left
-        elif aug_type in (
-            AugmentationType.dot,
-            AugmentationType.suffix,
-        ) and isinstance(node, ast.Attribute):
-            child = node.value
-        lineno = getattr(child, "end_lineno", None)
-        return node.lineno if lineno is None else lineno  # type: ignore[attr-defined]
+        return any(pos in positions for pos in candidates)
 
     def _handle_augmentations(self, nc: ast.AST) -> None:
         for spec, mod_positions in self.augmented_positions_by_spec.items():
-            col_offset = self._get_col_offset_for(spec.aug_type, nc)
-            if col_offset is None:
-                continue
-            if (self._get_lineno_for(spec.aug_type, nc), col_offset) in mod_positions:
+            if len(mod_positions) > 0 and self._is_augmented(
+                spec.aug_type, nc, mod_positions
+            ):
                 for tracer in self._tracers:
                     if spec in tracer.syntax_augmentation_specs:
                         tracer.augmented_node_ids_by_spec[spec].add(id(nc))
